@@ -109,6 +109,8 @@ def run_histories(ctx, res, n_hist, max_steps, store_kinds=("memory",), nfun=Non
         store_kind = store_kinds[h % len(store_kinds)]
         if allow == "chain":
             w = progs.gen_chain_world(rng)
+        elif allow == "shared":
+            w = progs.gen_shared_keeps_world(rng, aliases=True)
         elif allow == "multi":
             w = progs.gen_site_mix_world(rng) if h % 2 else progs.gen_world(rng, nfun=nfun, multi=True)
         else:
